@@ -1,1 +1,17 @@
 import BU.Properties.C12
+#print axioms C12.lk_dup
+#print axioms C12.lk_hash160
+#print axioms C12.lk_equalverify
+#print axioms C12.lk_checksig
+#print axioms C12.lk_equal
+#print axioms C12.lk_0
+#print axioms C12.lk_1
+#print axioms C12.push_direct
+#print axioms C12.p2pkh_bytes
+#print axioms C12.p2sh_bytes
+#print axioms C12.p2wpkh_bytes
+#print axioms C12.p2wsh_bytes
+#print axioms C12.p2tr_bytes
+#print axioms C12.p2sh_commits
+#print axioms C12.p2wsh_commits
+#print axioms C12.helpers_eq_address_script
